@@ -197,12 +197,24 @@ func ToItemCollection(it Item) (*ItemCollection, error) {
 	case ItemCollection:
 		return &i, nil
 	case *OrderedCollection:
+		if i == nil {
+			return nil, ErrorInvalidType[ItemCollection](it)
+		}
 		return &i.OrderedItems, nil
 	case *OrderedCollectionPage:
+		if i == nil {
+			return nil, ErrorInvalidType[ItemCollection](it)
+		}
 		return &i.OrderedItems, nil
 	case *Collection:
+		if i == nil {
+			return nil, ErrorInvalidType[ItemCollection](it)
+		}
 		return &i.Items, nil
 	case *CollectionPage:
+		if i == nil {
+			return nil, ErrorInvalidType[ItemCollection](it)
+		}
 		return &i.Items, nil
 	case IRIs:
 		iris := make(ItemCollection, len(i))
